@@ -14,17 +14,23 @@ Proof. reflexivity. Qed.
 Lemma swswap_invol w : swswap (swswap w) = w.
 Proof. destruct w; reflexivity. Qed.
 
-(** One step, either handle. *)
-Theorem slist_step_refines w hd o : swinv w ->
+(** One step, either handle. The allocator families of the two lists never change. *)
+Theorem slist_step_refines w hd o : swinv w -> smem_ok w o ->
   exists out w' fl, sl_step cmp pred w hd o = Ok (out, w') /\ swinv w' /\
     (out, swabs w') = sspec_step cmp pred (swabs w) hd o fl /\ aframe (swal w) (swal w') /\
-    (fl = true -> plan (swal w) <> [] \/ limit (swal w) < sreq_bytes (spsel (swabs w) hd) o).
+    (fl = true -> plan (swal w) <> [] \/ limit (swal w) < sreq_bytes (spsel (swabs w) hd) o) /\
+    (sl_mem (swa w') = sl_mem (swa w) /\ sl_mem (swb w') = sl_mem (swb w)).
 Proof.
-  intros Hw. destruct hd; [apply sstep_refines_HA; exact Hw|].
-  destruct (sstep_refines_HA cmp pred (swswap w) o (swinv_swap _ Hw)) as (out & w1 & fl & E & Hw1 & Hs & Hf & Hfl).
-  exists out, (swswap w1), fl. rewrite sstep_swap, E. cbn [bind]. split; [reflexivity|]. split; [apply swinv_swap; exact Hw1|].
-  split; [|split; [exact Hf|exact Hfl]].
-  rewrite sspec_swap, <- swabs_swap, <- Hs. reflexivity.
+  intros Hw Hsp.
+  assert (Hwt : swinv_t (sl_mem (swa w)) (sl_mem (swb w)) w) by (split; [exact Hw|split; reflexivity]).
+  destruct hd.
+  - destruct (sstep_refines_HA cmp pred _ _ w o Hwt Hsp) as (out & w1 & fl & E & (Hw1 & Hm1) & Hs & Hf & Hfl).
+    exists out, w1, fl. auto 10.
+  - destruct (sstep_refines_HA cmp pred _ _ (swswap w) o (swinv_t_swap _ _ _ Hwt) (smem_ok_swap _ _ Hsp))
+      as (out & w1 & fl & E & (Hw1 & Hma & Hmb) & Hs & Hf & Hfl).
+    exists out, (swswap w1), fl. rewrite sstep_swap, E. cbn [bind]. split; [reflexivity|]. split; [apply swinv_swap; exact Hw1|].
+    split; [|split; [exact Hf|split; [exact Hfl|cbn [swswap swa swb]; auto]]].
+    rewrite sspec_swap, <- swabs_swap, <- Hs. reflexivity.
 Qed.
 
 (** A refusal under an exhausted plan can only be a request above the limit. *)
@@ -36,15 +42,25 @@ Fixpoint sfls_ok (lim : N) (p : list N * list N) (ops : list (shnd * sop)) (fls 
       (fl = true -> lim < sreq_bytes (spsel p hd) o) /\ sfls_ok lim (snd (sspec_step cmp pred p hd o fl)) r (tl fls)
   end.
 
-Theorem slist_run_refines ops : forall w, swinv w ->
+(** Does a history use splice / splice_at (the only operations that need both lists in one allocator family)? *)
+Definition sis_splice (o : sop) : bool := match o with SSplice | SSpliceAt _ => true | _ => false end.
+Definition shas_splice (ops : list (shnd * sop)) : bool := existsb (fun p => sis_splice (snd p)) ops.
+
+Lemma smem_ok_of_eq w o : (sis_splice o = true -> sl_mem (swa w) = sl_mem (swb w)) -> smem_ok w o.
+Proof. destruct o; cbn; auto. Qed.
+
+Theorem slist_run_refines ops : forall w, swinv w -> (shas_splice ops = true -> sl_mem (swa w) = sl_mem (swb w)) ->
   exists outs w' fls, sl_run cmp pred w ops = Ok (outs, w') /\ swinv w' /\ length fls = length ops /\
     (outs, swabs w') = sspec_run cmp pred (swabs w) ops fls /\ aframe (swal w) (swal w') /\
     (plan (swal w) = [] -> sfls_ok (limit (swal w)) (swabs w) ops fls).
 Proof.
-  induction ops as [|[hd o] r IH]; intros w Hw.
+  induction ops as [|[hd o] r IH]; intros w Hw Hm.
   - exists [], w, []. cbn. auto 10 using aframe_refl.
-  - destruct (slist_step_refines w hd o Hw) as (out & w1 & fl & E & Hw1 & Hs & Hf & Hfl).
+  - cbn [shas_splice existsb snd] in Hm.
+    assert (Hsp : smem_ok w o) by (apply smem_ok_of_eq; intros H; apply Hm; rewrite H; reflexivity).
+    destruct (slist_step_refines w hd o Hw Hsp) as (out & w1 & fl & E & Hw1 & Hs & Hf & Hfl & Hma & Hmb).
     destruct (IH w1 Hw1) as (outs & w2 & fls & E2 & Hw2 & Hlen & Hs2 & Hf2 & Hfl2).
+    { intros H. rewrite Hma, Hmb. apply Hm. fold (shas_splice r). rewrite H. apply orb_true_r. }
     exists (out :: outs), w2, (fl :: fls). cbn [sl_run]. rewrite E. cbn [bind]. rewrite E2. cbn [bind].
     split; [reflexivity|]. split; [exact Hw2|]. split; [cbn; lia|]. split; [|split; [eapply aframe_trans; eassumption|]].
     + cbn [sspec_run tl]. rewrite <- Hs, <- Hs2. reflexivity.
@@ -53,39 +69,42 @@ Proof.
       * rewrite <- Hs. cbn [snd]. rewrite <- (af_limit _ _ Hf). apply Hfl2. apply (af_plan _ _ Hf Hp).
 Qed.
 
-(** Two fresh lists from the constructor. *)
-Lemma snew_winv mem a0 sa a1 sb a2 :
-  lok a0 -> live a0 = [] -> sl_new mem a0 = (CC_OK, Some sa, a1) -> sl_new mem a1 = (CC_OK, Some sb, a2) ->
-  swinv {| swa := sa; swb := sb; swal := a2 |} /\ swabs {| swa := sa; swb := sb; swal := a2 |} = ([], []) /\ aframe a0 a2.
+(** Two fresh lists from the constructor, each with its own allocator family. *)
+Lemma snew_winv mema memb a0 sa a1 sb a2 :
+  lok a0 -> live a0 = [] -> sl_new mema a0 = (CC_OK, Some sa, a1) -> sl_new memb a1 = (CC_OK, Some sb, a2) ->
+  swinv {| swa := sa; swb := sb; swal := a2 |} /\ swabs {| swa := sa; swb := sb; swal := a2 |} = ([], []) /\ aframe a0 a2 /\
+  sl_mem sa = mema /\ sl_mem sb = memb.
 Proof.
   intros Hk Hl0 E1 E2. unfold sl_new in *.
-  destruct (alloc mem SHDR_BYTES a0) as [[h1|] a1'] eqn:Ea1; [|discriminate]. inversion E1; subst; clear E1.
-  destruct (alloc mem SHDR_BYTES a1) as [[h2|] a2'] eqn:Ea2; [|discriminate]. inversion E2; subst; clear E2.
+  destruct (alloc mema SHDR_BYTES a0) as [[h1|] a1'] eqn:Ea1; [|discriminate]. inversion E1; subst; clear E1.
+  destruct (alloc memb SHDR_BYTES a1) as [[h2|] a2'] eqn:Ea2; [|discriminate]. inversion E2; subst; clear E2.
   destruct (alloc_some _ _ _ _ _ Ea1 Hk) as (_ & Hl1 & Hk1 & Hf1 & Hh1 & _).
   destruct (alloc_some _ _ _ _ _ Ea2 Hk1) as (_ & Hl2 & Hk2 & Hf2 & Hh2 & _).
-  assert (Rn : forall h, h <> 0 -> srep {| sl_size := 0; sl_head := 0; sl_tail := 0; sl_heap := []; sl_hdr := h; sl_mem := mem |} []).
-  { intros h Hh. constructor; cbn; auto; try constructor; try (intros y Hy; congruence). }
-  split; [|split; [|eapply aframe_trans; eassumption]].
-  - constructor; cbn [swa swb swal sl_mem]; [assumption|reflexivity|]. exists [], []. split; [apply Rn; assumption|].
+  assert (Rn : forall h mem, h <> 0 -> srep {| sl_size := 0; sl_head := 0; sl_tail := 0; sl_heap := []; sl_hdr := h; sl_mem := mem |} []).
+  { intros h mem Hh. constructor; cbn; auto; try constructor; try (intros y Hy; congruence). }
+  split; [|split; [|split; [eapply aframe_trans; eassumption|split; reflexivity]]].
+  - constructor; cbn [swa swb swal sl_mem]; [assumption|]. exists [], []. split; [apply Rn; assumption|].
     split; [apply Rn; assumption|]. rewrite Hl2, Hl1, Hl0. unfold sblocks, shblk. cbn. apply perm_swap.
   - unfold swabs, sl_abs, sl_chain. reflexivity.
 Qed.
 
-Theorem slist_new_run_refines mem a0 sa a1 sb a2 ops :
-  lok a0 -> live a0 = [] -> sl_new mem a0 = (CC_OK, Some sa, a1) -> sl_new mem a1 = (CC_OK, Some sb, a2) ->
+Theorem slist_new_run_refines mema memb a0 sa a1 sb a2 ops :
+  lok a0 -> live a0 = [] -> sl_new mema a0 = (CC_OK, Some sa, a1) -> sl_new memb a1 = (CC_OK, Some sb, a2) ->
+  (shas_splice ops = true -> mema = memb) ->
   exists outs w' fls, sl_run cmp pred {| swa := sa; swb := sb; swal := a2 |} ops = Ok (outs, w') /\ swinv w' /\
     length fls = length ops /\ (outs, swabs w') = sspec_run cmp pred ([], []) ops fls /\
     (plan a0 = [] -> sfls_ok (limit a0) ([], []) ops fls).
 Proof.
-  intros Hk Hl0 E1 E2. destruct (snew_winv mem a0 sa a1 sb a2 Hk Hl0 E1 E2) as (Hw & Ha & Hf).
+  intros Hk Hl0 E1 E2 Hm. destruct (snew_winv mema memb a0 sa a1 sb a2 Hk Hl0 E1 E2) as (Hw & Ha & Hf & Hma & Hmb).
   destruct (slist_run_refines ops _ Hw) as (outs & w' & fls & E & Hw' & Hlen & Hs & _ & Hfl).
+  { cbn [swa swb]. intros H. rewrite Hma, Hmb. apply Hm, H. }
   exists outs, w', fls. rewrite Ha in Hs, Hfl. cbn [swal] in Hfl. split; [exact E|]. split; [exact Hw'|]. split; [exact Hlen|].
   split; [exact Hs|]. intros Hp. rewrite <- (af_limit _ _ Hf). apply Hfl. apply (af_plan _ _ Hf Hp).
 Qed.
 
 (** Preservation alone. *)
-Theorem slist_wf_preserved w hd o : swinv w -> exists out w', sl_step cmp pred w hd o = Ok (out, w') /\ swinv w'.
-Proof. intros Hw. destruct (slist_step_refines w hd o Hw) as (out & w' & fl & E & Hw' & _). eauto. Qed.
+Theorem slist_wf_preserved w hd o : swinv w -> smem_ok w o -> exists out w', sl_step cmp pred w hd o = Ok (out, w') /\ swinv w'.
+Proof. intros Hw Hsp. destruct (slist_step_refines w hd o Hw Hsp) as (out & w' & fl & E & Hw' & _). eauto. Qed.
 End SRun.
 
 (** What the invariant says about each of the two lists, spelled out. *)
@@ -98,7 +117,7 @@ Definition slist_wf (s : slist) : Prop :=
 
 Theorem swinv_slist_wf w : swinv w -> slist_wf (swa w) /\ slist_wf (swb w).
 Proof.
-  intros [_ _ (la & lb & R1 & R2 & _)].
+  intros [_ (la & lb & R1 & R2 & _)].
   assert (H : forall s l, srep s l -> slist_wf s).
   { intros s l R. exists l. split; [apply R|]. split; [apply R|]. split; [apply R|]. split; [apply R|]. split; [apply R|].
     split; [apply R|]. split; [|apply srep_abs; exact R].
@@ -132,7 +151,7 @@ Proof.
   inversion Eb; auto.
 Qed.
 
-Theorem slist_bulk w hd o : swinv w ->
+Theorem slist_bulk w hd o : swinv w -> smem_ok w o ->
   exists out w' fl, sl_step cmp pred w hd o = Ok (out, w') /\ swinv w' /\
     (out, swabs w') = sspec_step cmp pred (swabs w) hd o fl /\
     match o with
@@ -144,7 +163,7 @@ Theorem slist_bulk w hd o : swinv w ->
     | _ => True
     end.
 Proof.
-  intros Hw. destruct (slist_step_refines cmp pred w hd o Hw) as (out & w' & fl & E & Hw' & Hs & _).
+  intros Hw Hsp. destruct (slist_step_refines cmp pred w hd o Hw Hsp) as (out & w' & fl & E & Hw' & Hs & _).
   exists out, w', fl. split; [exact E|]. split; [exact Hw'|]. split; [exact Hs|].
   destruct w as [sa sb a]. destruct o; try exact I; destruct hd; unfold sl_step in E; cbn [swget swother swset swset2 swa swb swal] in *.
   all: try (match type of E with (do _ <- ?x; _) = _ => destruct x as [[[st l'] a']|]; cbn [bind] in E; [|discriminate] end;
